@@ -1,13 +1,16 @@
 """C14: size literals and size formatting follow the documented unit tables."""
 import itertools
 import re
+from fractions import Fraction
 
 import common
 import corr
 import fstree
 import oracle
 
-RULE = ("every documented unit suffix in every letter case x integers and dyadic fractions x comparison against "
+RULE = ("every documented unit suffix in every letter case x integers and decimal fractions (fixed edge cases: one ulp "
+        "below a whole number in f64, 38/39 fraction digits, more digits than u128, leading + and zeros; plus random "
+        "ones) x comparison against "
         "(sparse) file sizes at multiplier*n-1, multiplier*n, multiplier*n+1; every specifier string of the grammar "
         "(precision none/0..3) x (space or not) x (subsets of c, d, s) x (unit none, b, k, kb, kib, ... tb) x sizes on "
         "a logarithmic grid with +-1 neighbours; (a) in-process parse_filesize/format_filesize vs the Lean model at "
@@ -33,10 +36,16 @@ def run(ctx):
         for cv in case_variants(u):
             for n in ([0, 1, 2, 7, 10, 1023, 1024, 1025, 4095, 65536, 999999] if not quick else [1, 7, 1024, 1025]):
                 lits.append(("%d%s" % (n, cv), n * UNITS[u]))
-            for q in ["0.5", "1.5", "2.25", "0.125", "3.", ".5"]:
-                lits.append((q + cv, None))
-            for q in ["0.1", "0.3", "1.2", "2.7", "0.07", "1.005"]:
-                lits.append((q + cv, ("approx", float(q) * UNITS[u])))
+            if u == "b" or not u:
+                for q in ["0.5", "1.5", "3.", ".5", "4.1"]:
+                    lits.append((q + cv, "none"))            # whole numbers only
+                continue
+            fr = ["0.5", "1.5", "2.25", "0.125", "3.", ".5", "0.1", "0.3", "1.2", "2.7", "0.07", "1.005", "1.001", "4.1", "8.2",
+                  "2.05", "16.9", "+1.5", "0.0009", "00.50", "1.0000000000000000000000001", "18446744073709551615.9",
+                  "0.%s1" % ("0" * 37), "0.%s1" % ("0" * 38)]
+            fr += ["%d.%s" % (r.below(100), "".join(r.choice("0123456789") for _ in range(r.range(1, 6)))) for _ in range(6 if quick else 60)]
+            for q in fr:
+                lits.append((q + cv, ("exact", q, UNITS[u])))
     extra = ["", "k", "1x", "1kk", "1 k", " 1 kb ", "1e3k", "-1k", "+5", "18446744073709551615", "18446744073709551616",
              "18446744073709551615b", "99999999999999999999k", "1.5", "1b5", "0x10", "1_000", "١k", "infk", "nank", "1kB ", "1K B"]
     for s in extra:
@@ -48,18 +57,29 @@ def run(ctx):
             ctx.distinct.add(("lit", s))
             a = ctx.model.ask("fn\tparse_filesize", s)
             b = ctx.harness.ask("parse_filesize", s)
+            doc = None
+            if isinstance(want, tuple):
+                # the documentation: number x multiplier, rounded down to whole bytes (u64 at most)
+                doc = min(int(Fraction(want[1].lstrip("+")) * want[2]), 2 ** 64 - 1)
             if a.startswith("some~"):
                 # decimal fraction that is no dyadic rational: the f64 product may differ in the last unit
                 ctx.count("inexact_literal")
                 mv = int(a.split(" ")[1])
                 if not b.startswith("some ") or abs(int(b.split(" ")[1]) - mv) > 1:
                     ctx.disagree("parseFilesize (model, within 1 byte) = parse_filesize (implementation)", {"literal": s}, a, b)
-                if isinstance(want, tuple) and (not b.startswith("some ") or abs(int(b.split(" ")[1]) - want[1]) > 1.5):
+                # beyond what `scale_size` scales in integers (more than 38 fraction digits or more digits than u128
+                # holds): the f64 route, documented value within one byte per 2^53
+                if doc is not None and (not b.startswith("some ") or abs(int(b.split(" ")[1]) - doc) > max(1, doc >> 52)):
                     ctx.oracle_fail("fractional size literal does not denote number x documented multiplier (rounded down)",
-                                    {"literal": s, "level": "in-process parse_filesize"}, detail={"got": b, "want": want[1]})
+                                    {"literal": s, "level": "in-process parse_filesize"}, detail={"got": b, "want": doc})
                 continue
             if isinstance(want, tuple):
+                want = doc
+                ctx.count("fractional_literal")
+            if want == "none":
                 want = None
+                if b != "none":
+                    ctx.oracle_fail("the unit `b` takes whole numbers only", {"literal": s, "level": "in-process parse_filesize"}, detail={"got": b})
             if a != b:
                 ctx.disagree("parseFilesize (model) = parse_filesize (implementation)", {"literal": s}, a, b)
             if want is not None and b != "some %d" % want:
@@ -92,6 +112,24 @@ def run(ctx):
                     if got != want:
                         ctx.oracle_fail("size OP literal is not the numeric comparison with number x multiplier", {"argv": [q]},
                                         detail={"got": got, "want": want, "status": impl["status"]})
+            common.rm_tree(snap.root)
+        # (2b) fractional literals at the CLI (incl. the ones whose f64 product lands one ulp below the whole number)
+        fr = [("4.1mb", 4100000), ("1.001kb", 1001), ("0.5k", 512), ("2.05GB", 2050000000), ("16.9tb", 16900000000000), ("1.5MiB", 1572864),
+              ("0.07k", 71), ("8.2Mb", 8200000)]
+        for lit, base in (fr if not quick else r.sample(fr, 3) + fr[:1]):
+            ents = [{"path": "s%d" % i, "kind": "f", "size": base + d, "sparse": True, "mode": 0o644, "mtime": 1700000000}
+                    for i, d in enumerate([-1, 0, 1])]
+            snap = corr.Snap(scratch, ents, subdir="fr_" + lit.replace(".", "_"), content_facts=False)
+            for op, f in [("=", lambda s: s == base), (">=", lambda s: s >= base), ("<", lambda s: s < base)]:
+                q = "select size from . where size %s %s into list" % (op, lit)
+                ctx.case(("cli", q))
+                ctx.distinct.add(("cli", q))
+                m, impl = corr.run_case(ctx, snap, [q], fmt="list", ncols=1)
+                got = sorted(int(x) for x in impl["out"].split(b"\0")[:-1]) if impl["status"] == 0 else None
+                want = sorted(e["size"] for e in ents if f(e["size"]))
+                if got != want:
+                    ctx.oracle_fail("size OP fractional literal is not the numeric comparison with number x multiplier (rounded down)", {"argv": [q]},
+                                    detail={"got": got, "want": want, "status": impl["status"]})
             common.rm_tree(snap.root)
         # (3) formatting: specifier grammar x size grid, in-process
         precs = ["", "%.0", "%.1", "%.2", "%.3"]
